@@ -10,7 +10,7 @@ cd "$work/repo"
 demo=$(ls "$d" | grep -E '_test\.go$|^main\.go$' | head -1)
 touched=$(grep '^+++ b/' "$d/patch.diff" | sed 's#^+++ b/##' | xargs -n1 dirname | sort -u | sed 's#^#./#')
 # without the change
-cp "$d/$demo" "$pkg/zz_seed_$demo"
+mkdir -p "$pkg"; cp "$d/$demo" "$pkg/zz_seed_$demo"
 go test -count=1 -run "$pat" "./$pkg/" >"$work/without.log" 2>&1; rc0=$?
 git apply "$d/patch.diff" || { echo "patch does not apply"; exit 2; }
 go build ./... >"$work/build.log" 2>&1; echo "build-with-change rc=$?"
